@@ -70,6 +70,12 @@ type foldTarget struct {
 	Age       int    `json:"AGE"`
 }
 
+// embedMapTarget keeps unknown members in an embedded fallback map.
+type embedMapTarget struct {
+	Known int            `json:"known"`
+	Rest  map[string]any `json:",embed"`
+}
+
 type inlineTarget struct {
 	Known int                       `json:"known"`
 	Rest  map[string]jsontext.Value `json:",inline"`
